@@ -41,4 +41,29 @@ Proof.
     f_equal. apply (Hit (content f p)).
   - unfold restore_all. cbn [fold_left]. apply IH. exact Hnd'.
 Qed.
+Lemma forall2_lookup_agree (g h : @fs B) : forall (items : list item) (files : list (list B)) q,
+  Forall2 (fun (it : @item B) file => g (fst (fst it)) = Some file) items files ->
+  Forall2 (fun (it : @item B) file => h (fst (fst it)) = Some file) items files ->
+  In q (map (fun it : @item B => fst (fst it)) items) -> g q = h q.
+Proof.
+  intros items files q H1. induction H1 as [|it file its fls Hg _ IH]; intros H2 Hin; [destruct Hin|].
+  inversion H2 as [|? ? ? ? Hh H2']; subst.
+  cbn [map] in Hin. destruct Hin as [E|Hin].
+  - subst q. rewrite Hg, Hh. reflexivity.
+  - apply IH; assumption.
+Qed.
+
+(* IDEMPOTENCE: restoring the same snapshot a second time into the result changes no path at all *)
+Theorem restore_tree_idempotent chunks : forall (items : list item) (files : list (list B)) (f : @fs B),
+  NoDup (map (fun it : item => fst (fst it)) items) ->
+  Forall2 (fun (it : item) file => forall pre, restore_file zero chunks (snd (fst it)) (snd it) pre = file) items files ->
+  forall q, restore_all zero chunks items (restore_all zero chunks items f) q = restore_all zero chunks items f q.
+Proof.
+  intros items files f Hnd Hall q.
+  destruct (in_dec Nat.eq_dec q (map (fun it : item => fst (fst it)) items)) as [Hin|Hout].
+  - destruct (restore_tree chunks items files f Hnd Hall) as [H1 _].
+    destruct (restore_tree chunks items files (restore_all zero chunks items f) Hnd Hall) as [H2 _].
+    exact (forall2_lookup_agree _ _ items files q H2 H1 Hin).
+  - rewrite restore_all_frame by exact Hout. reflexivity.
+Qed.
 End P.
